@@ -161,6 +161,10 @@ func planScreen(rng *rand.Rand, nops int, w, h int, mix string, rich bool, hasCa
 				if runes.ClassScreen(rr) == 2 { // documented: the string is as wide as the rune
 					subst = []string{"[]", "<>", "##", "WW"}[rng.Intn(4)]
 				}
+				if rng.Intn(2) == 0 { // the rune has been on the display before its fallback changes
+					add(sop{Op: "SetContent", X: rng.Intn(cw), Y: rng.Intn(ch), R: rr, St: tcx.RandStyle(rng, rich, true)})
+					add(sop{Op: "Show"})
+				}
 				add(sop{Op: "Fallback", R: rr, B: rng.Intn(2) != 0, S: subst})
 				add(sop{Op: "SetContent", X: rng.Intn(cw), Y: rng.Intn(ch), R: rr, St: tcx.RandStyle(rng, rich, true)})
 				add(sop{Op: "Sync"})
@@ -200,6 +204,19 @@ func planScreen(rng *rand.Rand, nops int, w, h int, mix string, rich bool, hasCa
 			if len(last) > 8 {
 				last = last[1:]
 			}
+		case k < 46 && cw >= 2 && rng.Intn(6) == 0:
+			// a wide rune over cells painted before, then the same Fill/Clear again: the column it covered
+			// holds what it held before, and must be shown again
+			base := sop{Op: "Clear"}
+			if rng.Intn(2) == 0 {
+				base = sop{Op: "Fill", R: []rune{'x', '.', ' '}[rng.Intn(3)], St: tcx.RandStyle(rng, false, true)}
+			}
+			add(base)
+			add(sop{Op: "Show"})
+			add(sop{Op: "SetContent", X: rng.Intn(cw - 1), Y: rng.Intn(ch), R: scrWide[rng.Intn(len(scrWide))], St: tcx.RandStyle(rng, rich, true)})
+			add(sop{Op: "Show"})
+			add(base)
+			add(sop{Op: "Show"})
 		case k < 48 && len(last) > 0: // re-store identical content (C13)
 			add(last[rng.Intn(len(last))])
 		case k < 50: // read a cell back and store what was read (an unchanged cell, whatever wrote it)
@@ -247,7 +264,14 @@ func planScreen(rng *rand.Rand, nops int, w, h int, mix string, rich bool, hasCa
 				add(setc())
 				continue
 			}
-			switch rng.Intn(14) {
+			switch rng.Intn(15) {
+			case 14:
+				// a cursor colour is set and shown, then only the shape changes: the terminal still holds the colour
+				add(sop{Op: "ShowCursor", X: rng.Intn(cw), Y: rng.Intn(ch)})
+				add(sop{Op: "SetCursorStyle", N: rng.Intn(7), Col: []tcell.Color{tcell.NewRGBColor(200, 10, 30), tcell.PaletteColor(3)}[rng.Intn(2)]})
+				add(sop{Op: "Show"})
+				add(sop{Op: "SetCursorStyle", N: rng.Intn(7), B: true})
+				add(sop{Op: "Show"})
 			case 0:
 				add(sop{Op: "EnableMouse", N: rng.Intn(9)})
 			case 1:
